@@ -19,7 +19,7 @@ DET = {
  "C09-b": (True,  "C09 quick: action=Put outcome=plain attr=fixed-private-name st=keyedClear ver=below include=1", ""),
  "C11-a": (True,  "C11 quick: dev=claim_all role=server identity=not-the-subject (via insider)", ""),
  "C11-b": (True,  "C11 quick: dev=mac_long / mac_empty / mac_trunc role=client and server", ""),
- "C17-a": (True,  "C17 quick: check=linearizability (history with a lost store rejected by TLC)", ""),
+ "C17-a": (True,  "C17 quick: check=linearizability (history with a lost store rejected by TLC); deterministic since the gated schedules (VerifGate hook)", "the random histories hit the few-instruction window only sometimes (missed once under machine load): gated schedules hold the lookup at its expiry check while the conflicting Store runs"),
  "C17-b": (True,  "C17 quick: race detector (sendMessageWithEnd vs ReceiveFrameWithEnd on frameBuf), duplex phase", ""),
  "C19-a": (True,  "C19 quick: shape=enc_recv check=returns/closed timing=in_step_then_*", ""),
  "C19-b": (False, "C19 quick: shape=hs_ssl check=returns (during_stall / between_steps), both roles", "SSL handshake shape with run-time generated CA/server certificate"),
